@@ -1,0 +1,30 @@
+//go:build verif
+
+// Machine-checked contracts (comment-only; compiled only under the build tag "verif").
+package rollout
+
+//@ track github.com/openkruise/rollouts/pkg/util.UpdateFinalizer as updFin
+//@ track github.com/openkruise/rollouts/pkg/util.GetRolloutCondition as getCond
+//@ track github.com/openkruise/rollouts/pkg/util.SetRolloutCondition as setCond
+//@ track (*RolloutReconciler).doFinalising as doFinalising
+//@ track (ReleaseManager).doCanaryFinalising as canaryFinalising
+
+//@ define deleting(x) = x.DeletionTimestamp != nil && x.DeletionTimestamp.Time != 0
+
+//@ func (*RolloutReconciler).handleFinalizer
+//@ props C18
+//@ requires r != nil && rollout != nil
+//@ ensures at_most_one: #updFin <= 1
+//@ ensures removes_only_after_cleanup: #updFin == 1 && #updFin.arg2 == util.RemoveFinalizerOpType ==> deleting(rollout) && #getCond == 1 && #getCond.ret0 != nil && as(#getCond.ret0, "*v1beta1.RolloutCondition").Reason == v1alpha1.TerminatingReasonCompleted && #getCond.arg1 == v1beta1.RolloutConditionTerminating
+//@ ensures own_finalizer: #updFin == 1 ==> #updFin.arg3 == util.KruiseRolloutFinalizer && iref(#updFin.arg1) == rollout
+//@ ensures never_removes_while_alive: !deleting(rollout) ==> #updFin == 0 || #updFin.arg2 == util.AddFinalizerOpType
+
+//@ func (*RolloutReconciler).reconcileRolloutTerminating
+//@ props C18
+//@ requires r != nil && rollout != nil && newStatus != nil
+//@ ensures completed_only_after_cleanup: #setCond > 0 ==> #doFinalising == 1 && #doFinalising.ret0 && #doFinalising.ret1 == nil
+
+//@ func (*RolloutReconciler).doFinalising
+//@ props C18 C05
+//@ requires r != nil && c != nil && c.Rollout != nil
+//@ ensures done_means_manager_done: result0 ==> result1 == nil && #canaryFinalising == 1 && #canaryFinalising.ret0 && #canaryFinalising.ret1 == nil
